@@ -21,6 +21,10 @@ pub struct P {
     pub side: Vec<u16>,
     pub cut_ns: u64,
     pub heal_ns: u64,
+    /// a second partition of the same shape: (cut, heal); remove_down_after is then chosen so that the forget
+    /// timers of the first partition fire while the second one is in place
+    #[serde(default)]
+    pub second: Option<(u64, u64)>,
 }
 
 pub fn gen_params(seed: u64, tier: Tier) -> P {
@@ -63,7 +67,18 @@ pub fn gen_params(seed: u64, tier: Tier) -> P {
     let cut = period + s.range(0, 3 * n as u64 * period);
     let min_dur = (2 * n as u64 + 2) * period + suspect;
     let dur = min_dur + s.range(0, 6 * period) + 2 * period;
-    P { wc, start_ns, shape: shape.to_string(), side, cut_ns: cut * MS, heal_ns: (cut + dur) * MS }
+    let mut p = P { wc, start_ns, shape: shape.to_string(), side, cut_ns: cut * MS, heal_ns: (cut + dur) * MS, second: None };
+    if s.chance(1, 4) {
+        // the same members are cut off again once the first heal has converged (at the latest `bound` after it);
+        // Down records of the first round are forgotten (remove_down_after) in the middle of the second round
+        let bound_ms = (n as u64 + 8) * announce + (2 * n as u64 + 1) * period;
+        let rda = dur + bound_ms + 2 * period + min_dur;
+        p.wc.cfg.remove_down_after = Duration::from_millis(rda);
+        let cut2 = cut + rda - min_dur;
+        let dur2 = 2 * min_dur + 2 * period + s.range(0, 3 * period);
+        p.second = Some((cut2 * MS, (cut2 + dur2) * MS));
+    }
+    p
 }
 
 pub fn execute(p: &P, seed: u64) -> RunOut {
@@ -80,6 +95,9 @@ pub fn execute(p: &P, seed: u64) -> RunOut {
     const OP_HEAL: usize = 1001;
     w.schedule_op(p.cut_ns, OP_CUT);
     w.schedule_op(p.heal_ns, OP_HEAL);
+    let mut round = 1;
+    // (a, b): a notified MemberDown for an identity of address b since the current cut
+    let mut downs_since_cut: std::collections::BTreeSet<(u16, u16)> = Default::default();
     let period = p.wc.cfg.probe_period.as_nanos() as u64;
     let announce = p.wc.cfg.periodic_announce_to_down_members.as_ref().unwrap().frequency.as_nanos() as u64;
     let bound = (n as u64 + 8) * announce + (2 * n as u64 + 1) * period;
@@ -98,7 +116,9 @@ pub fn execute(p: &P, seed: u64) -> RunOut {
             }
         }
         match w.step() {
-            Err(op) if op == OP_CUT => match p.shape.as_str() {
+            Err(op) if op == OP_CUT => {
+                downs_since_cut.clear();
+                match p.shape.as_str() {
                 "split" => w.partition(&[p.side.clone(), others.clone()]),
                 "isolate-both" => w.partition(&[p.side.clone(), others.clone()]),
                 "isolate-in" => {
@@ -121,13 +141,16 @@ pub fn execute(p: &P, seed: u64) -> RunOut {
                 }
                 _ => {
                     let m = World::idx(p.side[0]);
-                    w.stalled_until[m] = p.heal_ns;
+                    w.stalled_until[m] = if round == 1 { p.heal_ns } else { p.second.map(|x| x.1).unwrap_or(p.heal_ns) };
                     w.stats.inc("fault_stall");
                 }
-            },
+                }
+            }
             Err(op) if op == OP_HEAL => {
                 // did the fault do what the property's premise says?
-                let down_at = |w: &World, a: u16, b: u16| w.proc(a).unwrap().obs.slot(b).is_some_and(|m| m.state() == State::Down);
+                // (judged on the MemberDown notifications since the cut, not on the tables: a table that has
+                // already forgotten the Down record must not turn the run into a discarded one)
+                let down_at = |_w: &World, a: u16, b: u16| downs_since_cut.contains(&(a, b));
                 precondition = match p.shape.as_str() {
                     "split" => p.side.iter().all(|x| others.iter().all(|y| down_at(&w, *x, *y) && down_at(&w, *y, *x))),
                     _ => others.iter().all(|y| down_at(&w, *y, p.side[0])),
@@ -152,6 +175,9 @@ pub fn execute(p: &P, seed: u64) -> RunOut {
             match &note {
                 OwnedNotification::Defunct => vs.push(Violation { property: "C05", tag: "C05/defunct".into(), detail: format!("node {a} (renewable identity) notified Defunct at t={}ms", t / MS), at: t }),
                 OwnedNotification::Rejoin(_) => out.stats.inc("c05_rejoins"),
+                OwnedNotification::MemberDown(x) => {
+                    downs_since_cut.insert((a, x.addr));
+                }
                 _ => {}
             }
         }
@@ -167,7 +193,22 @@ pub fn execute(p: &P, seed: u64) -> RunOut {
             let all_active = w.live_addrs().iter().all(|a| w.proc(*a).unwrap().obs.connected());
             if all_active {
                 converged_at = Some(w.now);
-                break;
+                let th = healed_at.unwrap();
+                out.stats.max("c05_convergence_permille_of_bound", (w.now - th) * 1000 / bound);
+                out.stats.max("c05_convergence_announce_periods", (w.now - th) / announce);
+                match p.second {
+                    Some((cut2, heal2)) if round == 1 && cut2 > w.now => {
+                        // second round: same cut, later
+                        round = 2;
+                        out.stats.inc("c05_second_partition");
+                        healed_at = None;
+                        converged_at = None;
+                        precondition = false;
+                        w.schedule_op(cut2, OP_CUT);
+                        w.schedule_op(heal2, OP_HEAL);
+                    }
+                    _ => break,
+                }
             }
         }
     }
@@ -177,10 +218,7 @@ pub fn execute(p: &P, seed: u64) -> RunOut {
     } else if let (Some(th), true) = (healed_at, vs.is_empty()) {
         out.nontrivial = true;
         match converged_at {
-            Some(t) => {
-                out.stats.max("c05_convergence_permille_of_bound", (t - th) * 1000 / bound);
-                out.stats.max("c05_convergence_announce_periods", (t - th) / announce);
-            }
+            Some(_) => {}
             None => {
                 let mut detail = String::new();
                 for a in w.live_addrs() {
@@ -209,7 +247,7 @@ pub fn execute(p: &P, seed: u64) -> RunOut {
                 let holds_stale_down = |a: u16, b: u16| w.proc(a).unwrap().obs.slot(b).is_some_and(|m| m.state() == State::Down && w.id_of(b).gen > m.id().gen);
                 let mutually_superseded = live.iter().any(|a| live.iter().any(|b| a != b && holds_stale_down(*a, *b) && holds_stale_down(*b, *a)));
                 let tag = if all_idle && mutually_superseded { "C05/no-convergence-after-heal:every-instance-idle:mutually-superseded" } else if all_idle { "C05/no-convergence-after-heal:every-instance-idle" } else if silent { "C05/cluster-fell-silent-after-heal" } else { "C05/no-convergence-after-heal" };
-                vs.push(Violation { property: "C05", tag: tag.into(), detail: format!("{}: {} announce-to-down periods + {} probe periods after the heal (stopped at t={}ms, healed at t={}ms, event queue empty: {silent}): {detail}; instances: {:?}", p.shape, n + 8, 2 * n + 1, w.now / MS, th / MS, conns), at: w.now });
+                vs.push(Violation { property: "C05", tag: tag.into(), detail: format!("{} (round {round}): {} announce-to-down periods + {} probe periods after the heal (stopped at t={}ms, healed at t={}ms, event queue empty: {silent}): {detail}; instances: {:?}", p.shape, n + 8, 2 * n + 1, w.now / MS, th / MS, conns), at: w.now });
             }
         }
     }
@@ -261,6 +299,11 @@ impl Scenario for Heal {
         if p.wc.codec != CodecKind::Wire {
             let mut q = p.clone();
             q.wc.codec = CodecKind::Wire;
+            push(q);
+        }
+        if p.second.is_some() {
+            let mut q = p.clone();
+            q.second = None;
             push(q);
         }
         v
